@@ -26,9 +26,10 @@ from .. import core, defx
 ALIASES = {"AL_I16": "int16", "AL_F": "double", "AL_C": "char", "AL_U": "unsigned long long", "AL_B": "byte", "AL2": "AL_I16", "AL3": "AL2"}
 NESTED = {"NS1": {"c": "char[3]"}, "NS2": {"a": "int16"}, "NS4": {"a": "int32", "b": "int16"}, "NS8": {"d": "double", "i": "int32"}}
 NMSG = {"NM": {"id": 5900, "fields": {"a": "int32", "b": "int8"}}}
-TYPES = defx.NATIVE_NAMES + list(ALIASES) + list(NESTED) + ["NM"]
+VAR_TARGETS = ["int16", "double", "uint8", "float", "long long", "char"]
+TYPES = defx.NATIVE_NAMES + list(ALIASES) + list(NESTED) + ["NM", "AL_VAR", "AL_VAR2"]
 LENGTHS = [None, "1", "2", "3", "K3", "K3 * 2", "K3 - 1"]
-REP = ["char", "int8", "uint16", "int32", "double", "unsigned long", "long long", "AL3", "AL_C", "NS1", "NS4", "NS8", "NM", "byte", "float"]
+REP = ["char", "int8", "uint16", "int32", "double", "unsigned long", "long long", "AL3", "AL_C", "NS1", "NS4", "NS8", "NM", "byte", "float", "AL_VAR"]
 
 
 def sequences(tier: str) -> List[List[Tuple[str, Optional[str]]]]:
@@ -73,7 +74,7 @@ def batch_program(seqs, bi: int) -> Tuple[defx.Program, Dict[str, Any]]:
     shape = SHAPES[bi % len(SHAPES)]
     base = {"constants": {"K3": 3, "KF": 2.5, "KNEG": -7, "KEXP": "K3 * 4 + 1", "KHEX": "0x20", f"KB{bi}": bi},
             "string_constants": {"SC_A": "alpha", f"SC_B{bi}": "be ta"},
-            "aliases": dict(ALIASES), "host_ids": {"HOST_ONE": 11, f"HOST_B{bi}": 100 + bi},
+            "aliases": {**ALIASES, "AL_VAR": VAR_TARGETS[bi % len(VAR_TARGETS)], "AL_VAR2": "AL_VAR"}, "host_ids": {"HOST_ONE": 11, f"HOST_B{bi}": 100 + bi},
             "module_ids": {"MOD_ONE": 12, f"MOD_B{bi}": 20 + bi % 70},
             "struct_defs": {n: {"fields": dict(f)} for n, f in NESTED.items()},
             "message_defs": {**{n: dict(v) for n, v in NMSG.items()}, "SIG_A": {"id": 5901, "fields": None},
